@@ -43,26 +43,33 @@ SEQB = ('Future<int32_t> antecedent over a queuing model schedulable; %d then() 
         'continuation closures, get()s their futures and drops everything')
 
 
-def S(name, regs, pool, tiers):
+SEQB0 = ('Future<int32_t> antecedent over a queuing model schedulable; %d then() call(s) (continuation result int64_t, launch policies '
+         'symbolic) and the antecedent\'s run() execute one after the other in a symbolic order (k then() calls before the completion, '
+         'the rest after: task-granularity interleaving); main drops its reference early or late; dispatch counters checked')
+
+
+def S(name, regs, pool, tiers, tail=2, cont_get=1):
     # engine cbmc-seq with a single thread and no preemption = sequential execution of the fully inlined harness (typed
     # allocation, constant-trip-count loops unrolled); the plain 'cbmc' engine keeps allocSmallOrLarge() out of line and sees
     # the shared states as untyped byte arrays (conversion did not finish in 10 minutes)
     return {'name': name, 'src': 'then.cpp', 'engine': 'cbmc-seq', 'steps': 1, 'nthreads': 1, 'preempts': 0, 'seq_unroll': True,
-            'defs': {'VF_REGISTRARS': regs, 'VF_SEQ_ORDER': 1, 'VF_CHECK_POOL': pool, 'VF_TAIL': 2, 'VF_CONT_GET': 1},
-            'unwind': regs, 'timeout': 1500, 'leak_check': True, 'shims': ['moodycamel'], 'devirt': True, 'tiers': tiers,
-            'spin_loops': True,
-            'bounds': SEQB % regs + ('; every small-buffer block must be released to the size class it was allocated from' if pool else '')}
+            'defs': {'VF_REGISTRARS': regs, 'VF_SEQ_ORDER': 1, 'VF_CHECK_POOL': pool, 'VF_TAIL': tail, 'VF_CONT_GET': cont_get},
+            'unwind': regs, 'timeout': 1500, 'leak_check': tail >= 1, 'shims': ['moodycamel'], 'devirt': True, 'tiers': tiers,
+            'spin_loops': True, 'checks': RED,
+            'bounds': (SEQB if tail >= 1 else SEQB0) % regs +
+                      ('; every small-buffer block must be released to the size class it was allocated from' if pool else '')}
 
 
 INSTANCES = [
     # concurrent kernel: completer || registrar at atomic-operation granularity
     I('then1', 1, 2, 0, 0, thorough={'steps': 3}),
-    I('then1_tail', 1, 2, 1, 0, tiers=['experimental']),
-    # what happens after the dispatch, and two continuations on one antecedent: task-granularity orders
-    S('then1_order', 1, 0, ['quick', 'thorough']),
-    S('then2_order', 2, 0, ['quick', 'thorough']),
     # allocator contract on the then() path (property C11: memory safe / allocator contract): the then-chain link is
     # allocated from the 32-byte class and released to the 8-byte class (future_impl.h:240, nextPow2(sizeof(this))).
-    S('then1_order_pool', 1, 1, ['quick', 'thorough']),
-    I('then2', 2, 2, 0, 0, tiers=['thorough']),
+    S('then1_order_pool', 1, 1, ['quick', 'thorough'], tail=0),
+    # what happens after the dispatch (continuation runs once, sees the ready antecedent, result delivered, everything
+    # released), and two continuations on one antecedent: task-granularity orders
+    S('then1_order', 1, 0, ['experimental']),
+    S('then2_order', 2, 0, ['experimental']),
+    I('then1_tail', 1, 2, 1, 0, tiers=['experimental']),
+    I('then2', 2, 2, 0, 0, tiers=['experimental']),
 ]
